@@ -3,7 +3,7 @@
    enum values) for all inputs, and for the translated compatibility policy; the known gaps of the analyser are
    stated as REFUTED witnesses (replayed on the implementation: known findings); composition over the document
    walk is exercised by the edit catalogue of the harness. *)
-From GS Require Import Base.Str Gen.GenDiffTables Tools.DiffTypes Tools.DiffSpec Tools.DiffModel Tools.DiffModelLemmas Tools.DiffSound.
+From GS Require Import Base.Str Gen.GenDiffTables Tools.DiffTypes Tools.DiffSpec Tools.DiffModel Tools.DiffModelLemmas Tools.DiffSound Tools.DiffParams.
 
 (* the policy tables regenerated from compatibility.go classify the request-narrowing codes as Breaking *)
 Lemma policy_request :
@@ -112,3 +112,23 @@ Example C13_nonvacuous :
   sat_range (Some 1%Z) (Some 9%Z) 7 = true /\ sat_range (Some 1%Z) (Some 5%Z) 7 = false /\
   sat_numeric (sc_vals (int_schema (Some 10%Z) false [])) 10 = true /\ sat_numeric (sc_vals (int_schema (Some 10%Z) true [])) 10 = false.
 Proof. repeat split; reflexivity. Qed.
+
+(* ---------- which declaration of a parameter is compared ---------- *)
+(* a parameter is identified by name and location; the operation's declaration replaces the path item's *)
+Theorem C13_effective_param : forall pp op location n,
+  assoc n (get_params pp op location) =
+  match declared op n location with Some p => Some p | None => declared pp n location end.
+Proof. exact effective_param. Qed.
+Print Assumptions C13_effective_param.
+
+(* what is compared at a location was declared for that location under that name ... *)
+Theorem C13_effective_param_sound : forall pp op location n p,
+  assoc n (get_params pp op location) = Some p -> (In p op \/ In p pp) /\ p_in p = location /\ p_name p = n.
+Proof. exact effective_param_sound. Qed.
+Print Assumptions C13_effective_param_sound.
+
+(* ... and no declaration is lost, whatever other locations use the same name *)
+Theorem C13_effective_param_complete : forall pp op location p,
+  In p op \/ In p pp -> p_in p = location -> assoc (p_name p) (get_params pp op location) <> None.
+Proof. exact effective_param_complete. Qed.
+Print Assumptions C13_effective_param_complete.
